@@ -66,6 +66,9 @@ func (u *Universe) MethodSource(need map[string]bool) (string, map[string]bool) 
 			switch t.CompareMethod {
 			case "derived":
 				fmt.Fprintf(&sb, "func (this *%s) Compare(that *%s) int { return deriveCompareM%s(this, that) }\n\n", t.Name, t.Name, t.Name)
+			case "customd":
+				// a hand-written Compare that returns a difference, not -1/0/+1 (N is an int32: no overflow)
+				fmt.Fprintf(&sb, "func (this %s) Compare(that %s) int { return int(this.N) - int(that.N) }\n\n", t.Name, t.Name)
 			case "customv":
 				imps["strings"] = true
 				fmt.Fprintf(&sb, "func (this %s) Compare(that %s) int { return strings.Compare(strings.ToLower(this.Word), strings.ToLower(that.Word)) }\n\n", t.Name, t.Name)
